@@ -112,6 +112,11 @@ def ev(t: Term, env: Dict[Term, Any]) -> Any:
             if isinstance(args[0], np.ndarray):
                 return np.vectorize(fn, otypes=[object])(args[0])
             return fn(args[0])
+        if args and isinstance(args[0], np.ndarray) and args[0].dtype == object and \
+                ((f in ("numpy.asarray", "numpy.array", "numpy.ascontiguousarray") and (kwargs.get("dtype") in (float, complex, np.float64, np.complex128) or (len(args) == 2 and args[1] in (float, complex)))) or
+                 (f == ".astype" and len(args) == 2 and args[1] in (float, complex, np.float64, np.complex128))):
+            # a floating-point conversion of exact symbolic entries keeps their values
+            return np.array(args[0], dtype=object)
         if f in FUNCS:
             return FUNCS[f](*args, **kwargs)
         if f in METHODS:
